@@ -331,7 +331,20 @@ func runPurge(rc *RunCtx, prop, variant string) *simkit.Violation {
 	bt := w.Go(purger, "build-index", func() (interface{}, error) {
 		return core.PurgeBuildReverseIndex(p.stores(purger, main), popts(purger, "idx-build")...)
 	})
-	if prop == "C13" && t.Bool(1, 3) {
+	heldLate, heldLateOutside, heldIdx := false, false, -1
+	if prop == "C13" && variant == "crash-resume" && t.Bool(1, 2) {
+		heldIdx = len(lateTasks)
+		// an upload that starts during the (first) build and is still in flight - stuck before its last write, the bundle
+		// descriptor - while the build dies and is resumed; it commits after the resumed build has finished
+		heldLate = true
+		name := fmt.Sprintf("late%d", nLate)
+		w.Hold(func(c *simkit.Call) bool {
+			return c.Client.Name == name && c.Bucket != nil && strings.HasSuffix(c.Key, "/bundle.yaml") && (c.Op == simkit.OpPut || c.Op == simkit.OpPutExcl)
+		})
+		startLate(nLate)
+		nLate++
+		w.Probe("upload-in-flight-across-resume")
+	} else if prop == "C13" && t.Bool(1, 3) {
 		startLate(nLate) // concurrent with the index build
 		nLate++
 	}
@@ -353,6 +366,12 @@ func runPurge(rc *RunCtx, prop, variant string) *simkit.Violation {
 		}
 		if n := len(main.meta.KeysWithPrefix(model.ReverseIndexPrefix())); n >= 10 {
 			w.Probe("resume-over-10+-chunks")
+		}
+		if heldLate && len(main.meta.KeysWithPrefix(model.ReverseIndexPrefix())) == 0 {
+			// nothing of the first build survives: the resumed build IS the index build and starts now, after the slow
+			// upload started - an upload in flight when the index is started is outside the statement
+			heldLateOutside = true
+			w.Probe("in-flight-upload-predates-the-only-surviving-build")
 		}
 		// resume in a fresh process with a fresh local directory
 		if w.Faults == nil {
@@ -376,6 +395,15 @@ func runPurge(rc *RunCtx, prop, variant string) *simkit.Violation {
 		bt = rt
 	}
 	w.Faults = nil
+	if heldLate {
+		// the slow uploader gets through now
+		if w.ReleaseHeld() > 0 {
+			if v := w.Run(); v != nil {
+				v.Property = prop
+				return v
+			}
+		}
+	}
 	if !buildOK {
 		w.Probe("build-reported-failure")
 		w.Note("index build reported failure (%v): nothing is claimed for this run", bt.Err)
@@ -454,6 +482,25 @@ func runPurge(rc *RunCtx, prop, variant string) *simkit.Violation {
 		}
 		if lt.Err != nil {
 			return Viol(prop, "late-upload-failed", "Upload", "", "an upload running next to purge failed: %v", lt.Err)
+		}
+		if heldLateOutside {
+			// nothing is claimed for it, nor for a later upload that dedups onto its blobs (they are old and unreferenced
+			// when the only surviving build starts: the recorded finding C13/purge-lost-data/dedup-onto-orphaned-blob)
+			if i == heldIdx {
+				continue
+			}
+			hb, mine := map[string]bool{}, map[string]bool{}
+			blobKeysOf(lateTrees[heldIdx], p.leaf, hb)
+			blobKeysOf(lateTrees[i], p.leaf, mine)
+			shares := false
+			for k := range mine {
+				if hb[k] && !refAtIndex[k] {
+					shares = true
+				}
+			}
+			if shares {
+				continue
+			}
 		}
 		latePcs[i].repos[lateRepos[i]].Bundles = append(latePcs[i].repos[lateRepos[i]].Bundles, &mBundle{ID: lt.Result.(*core.Bundle).BundleID, Tree: lateTrees[i], Leaf: p.leaf})
 	}
